@@ -322,6 +322,10 @@ func registerHarnessIntrinsics(m map[string]intrinsic) {
 		w.timersAnywhere = a[0].(*Term).IsTrue()
 		fin(nil)
 	})
+	h("vSetOneShotTimers", func(w *World, g *G, a []Value, fin func(Value)) {
+		w.noOneShot = !a[0].(*Term).IsTrue()
+		fin(nil)
+	})
 	h("vSetClockStep", func(w *World, g *G, a []Value, fin func(Value)) {
 		w.clockStep = w.argInt(a[0])
 		fin(nil)
